@@ -240,11 +240,13 @@ impl<'a, 'tcx> T<'a, 'tcx> {
             ExprKind::VarRef { id } => {
                 k!("var");
                 o.push(("n", J::s(tcx.hir_name(id.0).to_string())));
+                o.push(("id", J::Int(id.0.local_id.as_u32() as i128)));
                 o.push(("ty", J::s(ty_s(e.ty))));
             }
             ExprKind::UpvarRef { var_hir_id, .. } => {
                 k!("upvar");
                 o.push(("n", J::s(tcx.hir_name(var_hir_id.0).to_string())));
+                o.push(("id", J::Int(var_hir_id.0.local_id.as_u32() as i128)));
                 o.push(("ty", J::s(ty_s(e.ty))));
             }
             ExprKind::Borrow { borrow_kind, arg } => {
@@ -397,9 +399,10 @@ impl<'a, 'tcx> T<'a, 'tcx> {
         match &p.kind {
             PatKind::Missing => o.push(("k", J::s("missing"))),
             PatKind::Wild => o.push(("k", J::s("wild"))),
-            PatKind::Binding { name, subpattern, mode, .. } => {
+            PatKind::Binding { name, subpattern, mode, var, .. } => {
                 o.push(("k", J::s("bind")));
                 o.push(("n", J::s(name.to_string())));
+                o.push(("id", J::Int(var.0.local_id.as_u32() as i128)));
                 o.push(("mode", J::s(format!("{:?}", mode))));
                 if let Some(sp) = subpattern {
                     o.push(("sub", self.pat(sp)));
